@@ -3,7 +3,7 @@
    implementation on each run (tie K).  Statements below hold at EVERY descriptor node (the code's own
    validation only looks at the last node visited). *)
 From Coq Require Import List ZArith QArith Bool Arith String.
-From GBS Require Import Model.PyStr Model.Num Model.Bond Model.Select Model.Gen Model.RGraph Proofs.SelectP Proofs.RGraphP Props.GenExample.
+From GBS Require Import Model.PyStr Model.Num Model.Bond Model.Select Model.Gen Model.RGraph Proofs.SelectP Proofs.RGraphP Props.GenExample Src.SrcRGraph Proofs.RGraphSrcP.
 Import ListNotations.
 Open Scope Q_scope.
 
@@ -62,6 +62,16 @@ Theorem C16_all_zero_refuted :
   intra_edges 1 (EStoch zero_obj) 1 (zd ">" 0 1) = [] /\ law [0; 0] = [(0 + 1) / (0 + 1 + (0 + 1 + 0)); (0 + 1) / (0 + 1 + (0 + 1 + 0))].
 Proof. split; reflexivity. Qed.
 Print Assumptions C16_all_zero_refuted.
+
+(* tie T: the edge construction written over the weight / compatibility / membership decisions REGENERATED from Molecule.gen_reaction_graph
+   (Src/SrcRGraph.v; statement skeleton checked; is_compatible regenerated from bond.py) is the graph of the theorems above *)
+Theorem C16_graph_is_source : forall els ei, graph_from_src ei els = graph_from ei els.
+Proof. exact reaction_graph_is_source. Qed.
+Print Assumptions C16_graph_is_source.
+
+Theorem C16_handover_edges_are_source : forall ei e next j d, inter_edges_src ei e next j d = inter_edges ei e next j d.
+Proof. exact inter_edges_is_source. Qed.
+Print Assumptions C16_handover_edges_are_source.
 
 Example C16_example : List.length (reaction_graph ex1_els) = 33%nat.
 Proof. vm_compute. reflexivity. Qed.
